@@ -511,3 +511,44 @@ def fallthrough_skips_member(ctx, s, parser):
     s.add("S-ORDER", fn, "unknown-member-skipped", parser.split("::")[-1], fn.sp, PROVED if ok else VIOLATION,
           "unknown members are skipped: rest of the name, colon, then the value" if ok else
           "no arm skips an unknown member (name, colon, value)")
+
+
+def literal_skippers_advance(ctx, s):
+    """S-REL: where a skipper has matched one of the JSON literals true / false / null at the cursor, it moves the cursor
+    past exactly that literal: the advance equals the literal's length (a shorter advance leaves its tail in the input
+    and every document containing that literal in a skipped position is rejected)"""
+    from ..prove import lin_add
+    n = 0
+    for p_, fn in sorted(ctx.F.fns.items()):
+        if not p_.startswith(JP) or fn.kind == "Closure":
+            continue
+        an = ctx.E.an(fn)
+        P = ctx.E.prover(fn)
+        cursors = [i for i in range(1, fn.argc + 1) if fn.locals[i]["ty"]["s"].replace(" ", "") == "&mutusize"]
+        if not cursors:
+            continue
+        for node in an.edge_cond:
+            for f in s.edge_new_facts(fn, node):
+                if f[0] != "true" or f[1][0] != "call" or f[1][1].rsplit("::", 1)[-1] not in ("eq", "starts_with"):
+                    continue
+                lits = [l for l in const_bytes(an, f[1]) if l in (b"true", b"false", b"null")]
+                if not lits:
+                    continue
+                L = lits[0]
+                # cursor stores dominated by this edge
+                for (b, i), loc in sorted(an.stmt_loc.items(), key=lambda kv: (kv[0][0], str(kv[0][1]))):
+                    if loc[0] != "deref" or loc[1][0] != "param" or loc[1][1] not in cursors:
+                        continue
+                    if not an.cfg.dominates(node, b):
+                        continue
+                    v = an.stmt_val[(b, i)]
+                    d = lin_add(P.lin(v), P.lin(("init", loc)), -1)
+                    if d[1]:
+                        continue
+                    n += 1
+                    ok = d[0] == len(L)
+                    s.add("S-REL", fn, "literal-advance", L.decode(), fn.blocks[b]["stmts"][i]["sp"], PROVED if ok else VIOLATION,
+                          "after matching `%s` the cursor moves %d bytes" % (L.decode(), len(L)) if ok else
+                          "after matching `%s` (%d bytes) the cursor moves %d bytes: the rest of the literal is left in the input and "
+                          "the document is then rejected" % (L.decode(), len(L), d[0]), b)
+    ctx.instances["S-REL.literal-advances"] = n
